@@ -646,6 +646,10 @@ func cmdLoop(args []string) int {
 	r := newRng(c.seed)
 	for i := 0; i < c.n; i++ {
 		cr := r.fork()
+		if i < c.skip {
+			continue
+		}
+		w.emit(map[string]any{"kind": "begin", "index": i})
 		o := genOpts{maxSteps: 4 + cr.intn(4), tags: cr.chance(1, 2), failOutputs: true, enabled: cr.chance(1, 2),
 			stopIf: false, waitFor: cr.chance(1, 2)}
 		if c.tier == "thorough" {
